@@ -21,7 +21,7 @@ META = {
                   "printed text must parse back to it and printing must be a fixed point; programmatic models with strings needing escapes; "
                   "escape_quotes_and_backslashes is interpreted symbolically (pysym) for all printable-ASCII strings up to 4 (quick) / 6 "
                   "(thorough) characters against an independent model of the StringLiteral lexer rule.",
-    "level_text_more": 'Also: 7 four-atom AND/OR shapes over every assignment of 3 object types (satisfiable patterns must be accepted), 9 programmatic object paths (list/reference/basic components, names needing quotes), and reuse of a shared sub-expression in two expressions. Non-ASCII step names; the rule \'printed bare iff a grammar identifier\' decided by regex inclusion over all strings.',
+    "level_text_more": 'Also: 7 four-atom AND/OR shapes over every assignment of 3 object types (satisfiable patterns must be accepted), 9 programmatic object paths (list/reference/basic components, names needing quotes), and reuse of a shared sub-expression in two expressions. Non-ASCII step names; the rule \'printed bare iff a grammar identifier\' decided by regex inclusion over all strings. Rounds 5-6: quoted path steps that need escapes; floats of 7-17 digits and of magnitudes Python writes with an exponent.',
     "level_note": "ANTLR lexer/parser trusted. Generator-driven obligations are selector-enumerated (E1s). STIX 2.0 grammar, patterns with more than 3 "
                   "atoms/observations, and START/STOP with string constants are outside the claim.",
     "technique": "CrossHair on the real visitor methods with stubbed children (symbolic NOT/operator/constant), solver-selected generator cases through "
